@@ -95,6 +95,8 @@ def cfg_text(consts, spec=None, init="Init", next_="Next", invariants=(), proper
     for k, v in consts.items():
         if k == "Prefix":
             continue
+        if k == "StubCompare":                  # harness only: re-execute exit transactions under every stub mode
+            continue
         if k == "MaxEntries":                   # exploration only: definition override of Base!MaxEntries
             if v:
                 lines.append("  MaxEntries <- MaxEntriesOn")
@@ -130,8 +132,12 @@ def cfg_text(consts, spec=None, init="Init", next_="Next", invariants=(), proper
     return "\n".join(lines) + "\n"
 
 
+HARNESS_EXTRA = {}      # harness-only switches of the running check (e.g. StubCompare for C09)
+
+
 def harness_cfg(consts, path):
     j = dict(consts)
+    j.update(HARNESS_EXTRA)
     for k in ("Fee", "Thr", "KeeperRate", "Price"):
         j[k] = DEC[consts[k]]
     with open(path, "w") as f:
@@ -293,7 +299,7 @@ def validate(trace, consts, invariants, properties, name, known, parts=8, timeou
     chunks = split_lines(trace, parts) if by_lines else split_trace(trace, parts)
     tc = dict(consts)
     cfg = raw_cfg or cfg_text(tc, spec="TSpec", invariants=["Report"] + list(invariants), properties=properties,
-                              postcondition="Accepted", extra_consts={"Known": known})
+                              postcondition="Accepted", extra_consts={"Known": known, "SpecLevel": "<- SpecLevelOff"})
     procs = []
     for i, (p, nlines, nruns) in enumerate(chunks):
         wd = f"{WORK}/{name}.tv{i}"
